@@ -42,7 +42,7 @@ def sign_single(inp: Path, out: Path, keys: Keys, key: str, kid: int, alg: str, 
         out.unlink()
     if via == "cli":
         p = subprocess.run(core.cli_cmd("sign", "single-level", "--input-envelope", inp, "--output-envelope", out,
-                                        "--key-name", key, "--key-id", hex(kid), "--alg", alg, "--context",
+                                        "--key-name", key, "--key-id", core.num(kid), "--alg", alg, "--context",
                                         keys.dir, "--sign-script", ss, "--kms-script", kms,
                                         "--already-signed-action", action),
                            cwd=out.parent, env=core.cli_env(), capture_output=True, text=True)
